@@ -88,13 +88,14 @@ type Session struct {
 	Stubs        *StubTable
 	QueryLog     string
 	Trace        bool
-	WantSample   int             // number of completed paths to sample with model+observations
-	InlineGo     bool            // `go f()` runs f inline (stated per harness)
-	LazyGo       bool            // lazy scheduling policy (sched.go); InlineGo = eager policy
-	SchedChoices int             // the first n scheduling points with several candidates are symbolic choices
+	WantSample   int                  // number of completed paths to sample with model+observations
+	InlineGo     bool                 // `go f()` runs f inline (stated per harness)
+	LazyGo       bool                 // lazy scheduling policy (sched.go); InlineGo = eager policy
+	SchedChoices int                  // the first n scheduling points with several candidates are symbolic choices
+	ModelPkg     *ssa.Package         // the zzverif model package (context model etc.)
 	NeedInit     map[*ssa.Global]bool // globals given a value by a package init that is not executed
-	Preemptions  int             // vYield points may hand over to another goroutine at most this often (symbolic)
-	ExtraInits   []*ssa.Function // package initialisers to run before the harness package's
+	Preemptions  int                  // vYield points may hand over to another goroutine at most this often (symbolic)
+	ExtraInits   []*ssa.Function      // package initialisers to run before the harness package's
 	// PermuteRanges: functions (ssa names) whose `range` over a map of 2-3 keys
 	// is explored in every order instead of the deterministic sorted one
 	PermuteRanges map[string]bool
